@@ -1936,6 +1936,7 @@ REFSEQ_SEQS = [["Point", "Pint", "Line"], ["Pint", "Point"], ["Lime", "Pint", "T
                ["Pint", "list[Point]"], ["Line", "Pint", "Point", "Tag"]]
 
 
+@iso.tmp_cleaned
 def _refseq_child(seq):
     import importlib
     import os
